@@ -4,7 +4,7 @@ from ..paths import explore, describe, bool_label, pretty_place
 from ..rules import calls_to, calls_where, order_ok, blocks_of
 from ..facts import callee_path, trace, is_place, op_local
 
-TEXT = ("For every struct field of type CommandReader<_> in the crate: exactly one read site, outside loops of its own function, in a function reachable from Renderer::on_start_processing (decode-scheduler readers: from DecodeScheduler::run) and not from Renderer::process, with the value consumed; every CommandWriter<_> field has a write site off the audio thread, and every function that writes a command writes it on every path that does not return an error (no state-dependent skipping); reader and writer of one command come from one command_writer_and_reader() call; CommandReader::read yields Some only when the triple buffer reports an update; newly inserted resources are drained in the same callback; type-level compile_fail witnesses (no Clone, &mut receivers, Send+Copy payload) with compiling twins. The interleaving semantics of triple_buffer are trusted. Writers kept in a collection are written through by their owner. A command taken out of its reader reaches a call or a store on every path (also in Parameter::read_command); wrapper methods reach their command-writing callee on every non-error path. The function holding a read is called on every pass of its caller; a handler is not invoked twice with one value; CommandWriter / CommandReader have no Drop impl; the C03 life-cycle rules and the clock rules are evaluated as 'commands take effect as documented'. Nothing runs on a cached copy of a parameter's value that is refreshed only on some passes. Every parameter a handle can set has a command reader of its own handed to it. The playhead's commands are polled loop region first, then the relative seek, then the absolute one. What a handle writes is its own arguments, converted (into, to_, tuple, ValueChangeCommand) and otherwise as they are - nothing is adjusted on the game thread. Every route a builder creates has its command writer in the handle (the builder methods store what they were given, keyed by send track).")
+TEXT = ("For every struct field of type CommandReader<_> in the crate: exactly one read site, outside loops of its own function, in a function reachable from Renderer::on_start_processing (decode-scheduler readers: from DecodeScheduler::run) and not from Renderer::process, with the value consumed; every CommandWriter<_> field has a write site off the audio thread, and every function that writes a command writes it on every path that does not return an error (no state-dependent skipping); reader and writer of one command come from one command_writer_and_reader() call; CommandReader::read yields Some only when the triple buffer reports an update; newly inserted resources are drained in the same callback; type-level compile_fail witnesses (no Clone, &mut receivers, Send+Copy payload) with compiling twins. The interleaving semantics of triple_buffer are trusted. Writers kept in a collection are written through by their owner. A command taken out of its reader reaches a call or a store on every path (also in Parameter::read_command); wrapper methods reach their command-writing callee on every non-error path. The function holding a read is called on every pass of its caller; a handler is not invoked twice with one value; CommandWriter / CommandReader have no Drop impl; the C03 life-cycle rules and the clock rules are evaluated as 'commands take effect as documented'. Nothing runs on a cached copy of a parameter's value that is refreshed only on some passes. Every parameter a handle can set has a command reader of its own handed to it. The playhead's commands are polled loop region first, then the relative seek, then the absolute one. What a handle writes is its own arguments, converted (into, to_, tuple, ValueChangeCommand) and otherwise as they are - nothing is adjusted on the game thread. Every route a builder creates has its command writer in the handle (the builder methods store what they were given, keyed by send track). Where a writer / reader pair is made in a loop, every turn stores both halves.")
 TECHNIQUE = 'MIR field-coverage / call-graph reachability / ordering rules + compile_fail witnesses'
 
 READER_FLOOR = 62
